@@ -911,6 +911,30 @@ func (w *World) Leave(id int) {
 	synctest.Wait()
 }
 
+// Crash is the first half of Leave: the machine is gone (goroutines stopped, clients' connections broken), but the
+// failure detectors of the survivors have not reported it yet. NotifyLeave is the second half.
+func (w *World) Crash(id int) {
+	n := w.Node(id)
+	n.Dead = true
+	n.stop()
+	for _, c := range w.Clients {
+		if c.Node == n {
+			c.Drop()
+		}
+	}
+	synctest.Wait()
+}
+
+// NotifyLeave tells every survivor that node id failed.
+func (w *World) NotifyLeave(id int) {
+	for _, s := range w.Nodes {
+		if !s.Dead {
+			s.Members.NotifyGossipLeave(uint64(id))
+		}
+	}
+	synctest.Wait()
+}
+
 // ---- observation ----
 
 type NodeView struct {
